@@ -186,6 +186,7 @@ def l0(ctx, tag, extends, defs, cfg, timeout=1800, workers=None, heap="8g", expe
 
 
 # ------------------------------------------------------------------ trace validation
+LAST_GROUPS = 0
 _SID = re.compile(r'^\{"id":\d+,"sid":(-?\d+),')
 
 
@@ -203,6 +204,8 @@ def split_trace(path, nshards):
     if n == 0:
         return [], 0
     explore = '"mode":"explore"' in header
+    global LAST_GROUPS
+    LAST_GROUPS = 0
     starts = [0]                      # indexes where a shard may begin
     if lines and _SID.match(lines[0]):
         i = 0
@@ -215,6 +218,8 @@ def split_trace(path, nshards):
                     if not m2 or m2.group(1) != m.group(1):
                         break
                     j += 1
+            if explore:
+                LAST_GROUPS += 1
             for k in range(i, j):
                 mk = _SID.match(lines[k])
                 if mk:
@@ -246,6 +251,8 @@ def validate(ctx, tag, trace_module, defs, consts, trace, levels=(1, 2), shards=
     shards = shards or max(1, NCPU // len(levels))
     parts, n = split_trace(trace, shards)
     res = {"n": n, "l2": [], "l1": [], "errors": []}
+    if 1 in levels and LAST_GROUPS and "OpsOK(" in (SPEC / f"{trace_module}.tla").read_text():
+        res["opset_states"] = LAST_GROUPS      # states in which the applied operations are compared with the model's OpSet
     if n == 0:
         return res
     jobs = []
@@ -420,8 +427,12 @@ def judge_trace(ctx, tag, trace, res, props, scope, summ=None, died=False, max_r
     if died and not mine:
         violation(ctx, f"{tag}: driver died outside a recorded operation (memory corrupted by the library?) rc={summ.get('_rc') if summ else '?'}",
                   {"signature": f"{tag}:died", "phase": tag, "scope": scope, "output": (summ or {}).get("_out", "")})
-    if res["l1"]:
-        ctx.cov["spec_drift"].append(f"{tag}: {len(res['l1'])} transitions differ from the concrete model (L1), first ids {sorted(res['l1'])[:5]}")
+    od = set(res.get("opsdiff", []))
+    if od:
+        ctx.cov["spec_drift"].append(f"{tag}: in {len(od)} states the driver did not apply exactly the operations of the model's OpSet, first record ids {sorted(od)[:5]}")
+    l1 = [x for x in res["l1"] if x not in od]
+    if l1:
+        ctx.cov["spec_drift"].append(f"{tag}: {len(l1)} transitions differ from the concrete model (L1), first ids {sorted(l1)[:5]}")
     return len(mine)
 
 
@@ -483,6 +494,7 @@ def impl_phase(ctx, tag, exe, mode_args, scope_args, trace_module, defs, consts,
            "l2_failures": nviol, "l1_mismatches": len(res["l1"]), "wall_s": round(time.time() - t, 1)}
     if expect_states is not None:
         run["model_states"] = expect_states
+        run["opset_compared_in_states"] = res.get("opset_states", 0)
         run["bisimilar_in_scope"] = bool(summ.get("complete") and summ.get("impl_states") == expect_states
                                          and not res["l1"] and not nviol)
         if summ.get("complete") and summ.get("impl_states") != expect_states:
